@@ -95,19 +95,25 @@ pub async fn run(sink: &mut Sink, ss: &mut Streams) {
         let out = merge_case(sink, &mut ss.mrg, &mut t, next(), &mut hist, &before, &st, &src, 1, true, &cf, "special-update-if-partial").await;
         sink.notes.push(format!("UpdateIf + partial source schema ({}): {:?}", label, out.map(|x| x.map(|(o, s)| (fmt_rows(&o.rows), s)))));
     }
-    // F18 through C12's operations: stable row ids, one update that moves a row, then any update / delete
+    // F18 through C12's operations: stable row ids; a delete leaves a hole in the id range of a fragment, an
+    // update then moves another row of that range to a new fragment; the next operation that builds the
+    // row-id index (any update / delete / legacy-path merge) panics in RowIdIndex::new
     {
-        let rows: Vec<Row> = (0..6).map(|i| r(&[i, 10 * i])).collect();
+        let rows: Vec<Row> = (0..10).map(|i| r(&[i, 10 * i])).collect();
         let mut t = Tbl::create(int(2), &rows, 1, true).await;
-        let mut hist = vec!["special: create k=0..5 (stable row ids)".to_string()];
-        let before = t.layout().await.unwrap();
-        let p = B::Cmp(Cmp::Eq, V::Col(0, Ty::Int), V::Lit(Some(2), Ty::Int));
+        let mut hist = vec!["special: create k=0..9 (stable row ids)".to_string()];
+        let eq = |k: i64| B::Cmp(Cmp::Eq, V::Col(0, Ty::Int), V::Lit(Some(k), Ty::Int));
         let asg = vec![(1usize, V::Lit(Some(99), Ty::Int))];
-        if update_case(sink, &mut ss.upd, &mut t, next(), &mut hist, &before, &p, &asg, &cf, "special-rowid-1").await {
+        let before = t.layout().await.unwrap();
+        let mut alive = delete_case(sink, &mut ss.del, &mut t, next(), &mut hist, &before, &eq(3), &cf, "special-rowid-1").await;
+        if alive {
             let before = t.layout().await.unwrap();
-            let p = B::Cmp(Cmp::Eq, V::Col(0, Ty::Int), V::Lit(Some(4), Ty::Int));
-            let alive = delete_case(sink, &mut ss.del, &mut t, next(), &mut hist, &before, &p, &cf, "special-rowid-2").await;
-            sink.notes.push(format!("stable row ids: update k=2 then delete k=4 -> {}", if alive { "ok" } else { "second operation failed (see oracle failure stable_row_id_index_overlap)" }));
+            alive = update_case(sink, &mut ss.upd, &mut t, next(), &mut hist, &before, &eq(5), &asg, &cf, "special-rowid-2").await;
+        }
+        if alive {
+            let before = t.layout().await.unwrap();
+            alive = delete_case(sink, &mut ss.del, &mut t, next(), &mut hist, &before, &eq(7), &cf, "special-rowid-3").await;
+            sink.notes.push(format!("stable row ids: delete k=3, update k=5, delete k=7 -> {}", if alive { "ok" } else { "third operation failed (oracle failure stable_row_id_index_overlap)" }));
         }
     }
 }
